@@ -1,5 +1,5 @@
 #!/bin/bash
-# usage: rebase_seeds.sh seeded/Cxx-k ...
+# usage: tools_rebase_seeds.sh seeded/Cxx-k ...   (find the ones that need it with:  for d in seeded/C*-*/; do git -C /repo apply --check /verif/$d/patch.diff 2>/dev/null || echo $d; done)
 HEAD=$(git -C /repo rev-parse HEAD)
 COMMITS=$(git -C /repo log --format=%H --reverse)
 for d in "$@"; do
